@@ -177,7 +177,8 @@ def initLine (r : Except Msg.InitErr Msg.RW) : String :=
   match r with
   | .error e => "err:" ++ (match e with
       | .namePrefix => "name-prefix" | .enumNotUint64 => "enum-not-uint64" | .unsupported => "unsupported"
-      | .enumType => "enum-type" | .strLen => "str-len")
+      | .enumType => "enum-type" | .strLen => "str-len" | .unexported => "unexported" | .arrLen => "arr-len"
+      | .strArray => "str-array" | .extOrder => "ext-order" | .tooBig => "too-big")
   | .ok rw =>
     let ord := ",".intercalate (rw.fields.map (fun f => toString f.index))
     s!"ok order={ord} sizeN={rw.sizeNormal} sizeX={rw.sizeExtended} crc={rw.crcExtra}"
@@ -629,6 +630,26 @@ def step (ds : DState) (line : String) : DState × String :=
         | some e => e
         | none => s!"ok n={defs.length}"
       m ++ "\t" ++ sp)
+  | ["duse", dn, id] =>
+    -- first use of a message struct: initialise it, encode its zero value in both versions, decode an empty and a long payload
+    (ds, match id.toNat? with
+      | none => "bad-op"
+      | some i => match ((ds.allDefs.lookup dn).getD []).find? (fun d => d.1.toNat == i) with
+        | none => "no-such-message"
+        | some (_, st) =>
+          let zero : List Msg.FVal := st.fields.map (fun f =>
+            if f.elemType == "string" then .str [] else .num (List.replicate (if f.isArray then f.arrLen else 1) 0))
+          let m := match Msg.init st with
+            | .error _ => "init-err"
+            | .ok rw =>
+              let e1 := match Msg.encode rw false zero with | .ok _ => true | .panic => false
+              let e2 := match Msg.encode rw true zero with | .ok _ => true | .panic => false
+              let d1 := match Msg.decode rw true [] with | .panic => false | _ => true
+              let d2 := match Msg.decode rw true (List.replicate 255 0) with | .panic => false | _ => true
+              if e1 && e2 && d1 && d2 then "ok" else "panic"
+          -- SPEC: a struct that is not a definition is refused when it is initialised; one that is accepted can be used
+          let sp := if (Spec.Msg.ofGo st).isNone then "init-err" else "ok"
+          m ++ "\t" ++ sp)
   | ["dget", dn, id] =>
     (ds, match id.toNat?, Dialect.init ((ds.allDefs.lookup dn).getD []) [] with
       | some i, .ok tbl =>
